@@ -925,3 +925,37 @@ package compiler
 //@   ensures  noerr: result.1 == nil && result.0 == def
 //@   ensures  renamed: old(call("compiler.(*Unspec).newNameFor", pass, def.ConstantReference.ReferredPkg, def.ConstantReference.ReferredType).1) ==> def.ConstantReference.ReferredType == old(call("compiler.(*Unspec).newNameFor", pass, def.ConstantReference.ReferredPkg, def.ConstantReference.ReferredType).0)
 //@   ensures  untouched: !old(call("compiler.(*Unspec).newNameFor", pass, def.ConstantReference.ReferredPkg, def.ConstantReference.ReferredType).1) ==> def.ConstantReference.ReferredType == old(def.ConstantReference.ReferredType)
+//
+// C05 - rename_object and discriminator mappings: a mapping value names an object of the schema the union
+// is found in; it is selected by the same predicate as references (renameSelects) and becomes pass.To, every
+// other entry is kept, no key is added or lost. The two callbacks that carry the mappings descend into every
+// branch / field like the visitor's default would.
+//@ spec mappingRenamed(pass, pkg, o, n) = forall k: string :: n.has(k) == o.has(k) && (o.has(k) ==> n[k] == ite(renameSelects(pass, pkg, o[k]), pass.To, o[k]))
+//@ func (*RenameObject).renameInMapping
+//@   property C05 C15
+//@   requires pass != nil
+//@   modifies nothing
+//@   ensures  fresh: result != nil && fresh(result)
+//@   ensures  renamed: mappingRenamed(pass, pkg, mapping, result)
+//@   loop 0:
+//@     invariant fresh: newMapping != nil && fresh(newMapping)
+//@     invariant done: forall k: string :: newMapping.has(k) == visited(k) && (visited(k) ==> newMapping[k] == ite(renameSelects(pass, pkg, mapping[k]), pass.To, mapping[k]))
+//
+//@ func (*RenameObject).processDisjunction
+//@   property C05 C15
+//@   requires pass != nil && visitor != nil && schema != nil && def.Kind == ast.KindDisjunction
+//@   at-call "compiler.(*Visitor).VisitType" branch: $arg0 == visitor && $arg1 == schema && $arg2 == old(def.Disjunction.Branches)[$i + 1]
+//@   at-call "compiler.(*Visitor).VisitType" mapping: $i >= 0 || mappingRenamed(pass, schema.Package, old(def.Disjunction.DiscriminatorMapping), def.Disjunction.DiscriminatorMapping)
+//@   ensures  nobranches: old(len(def.Disjunction.Branches)) == 0 ==> result.1 == nil && mappingRenamed(pass, schema.Package, old(def.Disjunction.DiscriminatorMapping), def.Disjunction.DiscriminatorMapping)
+//@   ensures  descended: result.1 == nil ==> ncalls("compiler.(*Visitor).VisitType") >= old(ncalls("compiler.(*Visitor).VisitType")) + old(len(def.Disjunction.Branches))
+//@   loop 0:
+//@     invariant counted: ncalls("compiler.(*Visitor).VisitType") >= old(ncalls("compiler.(*Visitor).VisitType")) + $i + 1
+//@     invariant mapping: $i >= 0 || mappingRenamed(pass, schema.Package, old(def.Disjunction.DiscriminatorMapping), def.Disjunction.DiscriminatorMapping)
+//
+//@ func (*RenameObject).processStruct
+//@   property C05 C15
+//@   requires pass != nil && visitor != nil && schema != nil && def.Kind == ast.KindStruct
+//@   at-call "compiler.(*Visitor).VisitStructField" field: $arg0 == visitor && $arg1 == schema && $arg2 == old(def.Struct.Fields)[$i + 1]
+//@   ensures  descended: result.1 == nil ==> ncalls("compiler.(*Visitor).VisitStructField") >= old(ncalls("compiler.(*Visitor).VisitStructField")) + old(len(def.Struct.Fields))
+//@   loop 0:
+//@     invariant counted: ncalls("compiler.(*Visitor).VisitStructField") >= old(ncalls("compiler.(*Visitor).VisitStructField")) + $i + 1
